@@ -88,6 +88,10 @@ def classify(k, rec):
         return "mu-vmf-cmf-overcomplete-reshape"
     if k.startswith("exception/tdvp_vmf") and "infs or NaNs" in exc and rec.get("gauge") in ("random-raw", "operator-applied"):
         return "vmf-overcomplete-singular-overlap"
+    if k == "exception/sequence" and "cannot reshape" in exc and str(rec.get("failing_call", "")).startswith(("cmf", "tdvp_mu_vmf")):
+        return "mu-vmf-cmf-overcomplete-reshape"      # a preceding two-site / P&C call left bonds larger than their right block
+    if k == "exception/sequence" and "infs or NaNs" in exc and str(rec.get("failing_call", "")).startswith("tdvp_vmf"):
+        return "vmf-overcomplete-singular-overlap"
     if k.startswith("gauge/ps/operator-applied"):
         return "tdvp-ps-noncanonical-input"
     if k.startswith("solver-dependence/tdvp_mu_cmf"):
